@@ -45,7 +45,7 @@ check('C19', 'cli',
       'positional.  Known finding F-C19b is reported as KNOWN-FINDING.',
       'DESIGN.md section 4, C19')
 
-ENGINES['llparser'] = ('specs/llparser', ['C01', 'C02', 'C03'],
+ENGINES['llparser'] = ('specs/llparser', ['C01', 'C02', 'C03', 'C04'],
                        'LLGrammar.tla (A-spec: nullable/FIRST/FOLLOW, LL(1), left recursion, bounded language, derivation '
                        'trees), LLCases.tla (grammar builder), LLJudge.tla / LLEval.tla (observation judges); '
                        'drivers harness/drivers/ll.py, c01.py, c02.py, c03.py')
@@ -230,6 +230,20 @@ check('C10', 'render',
       'Trusted: TLC, harness/sgr.py; objects and configuration contents fixed in harness/c10_objs.py; colours compared '
       'as painted cells. The git history report is not among the rendered objects yet.',
       'DESIGN.md section 4, C10')
+
+check('C04', 'llparser',
+      'TLA+ reference tokenizer (state machine over the characters of the text) and judge of the positions observed on '
+      'the real parser; texts come from a TLC builder',
+      'TLC builds all texts of 1 line x 4 chars and 2 lines x 3 chars (thorough: 1x6, 2x4, 3x2) over an alphabet with '
+      'every character class (space, word, digit, quoted string, multi-line span opener/closer, unmatched) and '
+      'simulates texts of 4 lines; each is parsed as str and as list of lines with two grammars (whitespace skipped / '
+      'kept as tokens; empty nodes first, in the middle and last).  TLC re-tokenizes the text with the reference '
+      'machine and accepts only if every leaf has exactly the reference span and get_orig_text returns exactly that '
+      'slice, every inner node spans first..last token, every empty node sits at the following token, and an '
+      'unmatched character raises LexicalError naming its line.',
+      'Trusted: TLC. Token patterns restricted to the class-run family plus quoted string and one span token; the '
+      'value of span tokens and the column of LexicalError are not judged.',
+      'DESIGN.md section 4, C04')
 
 ALL = ['C%02d' % i for i in range(1, 21)]
 
